@@ -81,6 +81,8 @@ type c08Run struct {
 	// work: the orchestration queue's work items — NodeClaims for which StartCommand pushed an event into the queue's
 	// source channel and whose reconcile has not finished without a requeue yet. The controller reconciles nothing else.
 	work map[string]bool
+	// workModelOff: the source channel could not be observed (refactored internals): every queue entry counts as work
+	workModelOff bool
 }
 
 // drainQueueSource plays controller-runtime's channel source: it takes the events StartCommand pushed into the queue's
@@ -90,8 +92,11 @@ func (x *c08Run) drainQueueSource() {
 		x.work = map[string]bool{}
 	}
 	f := reflect.ValueOf(x.env.Queue).Elem().FieldByName("source")
-	if !f.IsValid() {
-		panic("disruption.Queue has no field 'source' any more: the work-queue model of C08 needs updating")
+	if !f.IsValid() || f.Kind() != reflect.Chan {
+		// the queue's internals were refactored: fall back to the coarser model in which every entry of the queue is a
+		// work item (weaker, never alarming), and say so in the evidence
+		x.workModelOff = true
+		return
 	}
 	ch := reflect.NewAt(f.Type(), unsafe.Pointer(f.UnsafeAddr())).Elem()
 	for {
@@ -99,11 +104,25 @@ func (x *c08Run) drainQueueSource() {
 		if !ok {
 			return
 		}
-		if nc, ok := v.FieldByName("Object").Interface().(*v1.NodeClaim); ok && nc != nil {
+		obj := v
+		if v.Kind() == reflect.Struct {
+			obj = v.FieldByName("Object")
+		}
+		if !obj.IsValid() || !obj.CanInterface() {
+			x.workModelOff = true
+			return
+		}
+		if nc, ok := obj.Interface().(*v1.NodeClaim); ok && nc != nil {
 			x.work[nc.Name] = true
+		} else {
+			x.workModelOff = true
+			return
 		}
 	}
 }
+
+// isWork: the controller will reconcile the command whose first candidate is this NodeClaim.
+func (x *c08Run) isWork(name string) bool { return x.workModelOff || x.work[name] }
 
 func (x *c08Run) newControllers() {
 	w := x.env.W
@@ -266,7 +285,7 @@ func (x *c08Run) run(run *explore.Run, steps int, faults bool) {
 		for _, cmd := range x.liveCommands() {
 			cmd := cmd
 			first := cmd.Candidates[0].NodeClaim
-			if !x.work[first.Name] {
+			if !x.isWork(first.Name) {
 				continue // no event was ever pushed for this entry: the controller will never look at it
 			}
 			script = append(script, act{"queue:" + first.Name, func() {
@@ -441,7 +460,7 @@ func (x *c08Run) run(run *explore.Run, steps int, faults bool) {
 	held := map[string]bool{}
 	x.drainQueueSource()
 	for _, c := range x.liveCommands() {
-		if len(c.Candidates) == 0 || !x.work[c.Candidates[0].NodeClaim.Name] {
+		if len(c.Candidates) == 0 || !x.isWork(c.Candidates[0].NodeClaim.Name) {
 			continue // an entry nobody will ever reconcile is not a command in flight
 		}
 		for _, cn := range c.Candidates {
@@ -518,6 +537,9 @@ func init() {
 					outcome = fmt.Sprintf("commands=%d succeeded=%v", len(x.cmds), x.cmds[0].Succeeded)
 				}
 				l.Outcome(sc.name + ": " + outcome)
+				if x.workModelOff {
+					l.Outcome("queue work-item model off: the queue's source channel is not observable, every entry counts as work")
+				}
 				if x.latched {
 					l.Outcome("candidate deleted after a replacement that had reported Initialized vanished (latched readiness; reported, not judged)")
 				}
